@@ -118,7 +118,7 @@ add(Lemma(spec_parse.lemma_netloc_roundtrip,
           note="split_netloc(make_netloc(parts)) == parts for canonical parts"))
 
 add(Contract("yarl._url:URL._cache_netloc", [("self", URLT)], spec=spec_url.cache_netloc, requires=spec_url.netloc_ok,
-             props=("C08", "C09")))
+             call_inline=True, props=("C08", "C09")))
 
 add(Contract("yarl._url:URL.build",
              [("cls", CONST(None)), ("scheme", STR), ("authority", STR), ("user", OPT(STR)), ("password", OPT(STR)),
@@ -191,3 +191,42 @@ for _name, _inst in PY_QUOTERS.items():
     pass
 add(Lemma(spec_quote.lemma_unit_alphabet, [("quoter", CONST(*PY_QUOTERS.values())), ("B", BYTES), ("p", INT)],
           requires=spec_quote.lemma_requires, props=("C01",)))
+
+# ---------------------------------------------------------------- the compiled quoter (yarl/_quoting_c.pyx)
+from pyvc import pyxfront as _pyxfront
+from pyvc import cmodel as _cmodel
+
+try:
+    _PYX_MOD, _PYX_TEXT, _PYX_TYPES = _pyxfront.load()
+    C_QUOTERS = {}
+    for _name, _kw in _quoter_configs().items():
+        if _name in spec_quote.QUOTERS:
+            _inst = _PYX_MOD._Quoter(**_kw)
+            C_QUOTERS[_name] = _inst
+            spec_quote.INSTANCE_NAME[id(_inst)] = _name
+    PYX_ERROR = None
+except Exception as _e:      # the front end could not read the current .pyx: obligations undecided
+    PYX_ERROR = f"{type(_e).__name__}: {_e}"
+    C_QUOTERS = {}
+
+if C_QUOTERS:
+    add(Contract("yarl._quoting_c_pyx:bit_at", [], spec=None, abstract=_cmodel.bit_at_contract, assumed=False, props=()))
+    add(Contract("yarl._quoting_c_pyx:_write_char", [], spec=None, abstract=_cmodel.write_char_contract, props=()))
+    _CQ_LOOP = {
+        "inv": "0 <= idx and idx <= length and G_p == idx and G_k == 0 and (writer.changed != 0 or G_same)",
+        "ghost": {"p": "0", "k": "0", "same": "True"},
+        "step": "q_step_cp(self, val, G_p)",
+        "exit": "G_p == length",
+        "same": "unit_is_input(UNIT, val, G_p, CONSUMED)",
+        "sync": "G_p == idx",
+        "fields": {"writer": {"changed": "flag", "pos": "int"}},
+        "writer": "writer",
+        "stream_result": _quoter_stream_result,
+    }
+    add(Contract("yarl._quoting_c_pyx:_Quoter._do_quote",
+                 [("self", CONST(*C_QUOTERS.values())), ("val", STR), ("length", INT), ("kind", INT),
+                  ("data", ("pydata", "val")), ("writer", ("writer",))],
+                 spec=None, native_spec=None, spec_module=spec_quote, requires=spec_quote.do_quote_requires,
+                 raises=(MemoryError,), loops={0: _CQ_LOOP}, post="(result is not val) or G_same",
+                 props=("C05", "C01", "C02", "C04", "C19"),
+                 note="stream simulation of the compiled quoter against spec_quote.q_step_cp"))
